@@ -157,10 +157,17 @@ def run(ctx):
             for k in sorted(set([1, n] if ctx.quick() else [1, 2, n])):
                 if 1 <= k <= n:
                     points.append(("boundary", name, k))
-        if not ctx.quick():
-            for key in faults.State.order:
-                if any(x in key for x in ("tempfile_decorator", "run_worker", "write", "rejection_sample_helper")):
-                    points.append(("py-base", key, 1))
+        # BaseException variant (KeyboardInterrupt / SystemExit style exits): raised in the parent process only -
+        # a BaseException inside a multiprocessing worker kills the worker and hangs the pool, which is outside thejoker
+        parent_only = ("run_worker", "write_table_hdf5", "JokerSamples.write", "rejection_sample_helper", "make_full_samples",
+                       "JokerSamples.unpack", "marginal_ln_likelihood_helper", "iterative_rejection_helper", "batch_tasks")
+        in_workers = ("read_batch", "_worker", "table_header_to_units")
+        for key in faults.State.order:
+            fn = key.split(":")[1]
+            if any(fn.endswith(x) or x in fn for x in parent_only) and not any(x in fn for x in in_workers):
+                points.append(("py-base", key, 1))
+            elif pk == 0 and any(x in fn for x in in_workers) and (not ctx.quick() or "read_batch" == fn):
+                points.append(("py-base", key, 1))
         ctx.counters["fault_points_%s_%s_%d" % sc] = len(points)
         # in MultiPool scenarios, functions that only run inside workers cannot be hit from the parent: detect by `reached`
         for kindp, key, k in points:
